@@ -3,7 +3,7 @@ use crate::decode::PhysDecodeLevel;
 // ---- environment model: the ghost wire (DESIGN.md 4.3).  `pending` = bytes the peer has sent and this side has not
 // yet read (universally quantified: the proofs hold for every content and every chunking the shim may choose);
 // `sent` = the slices handed to the transport, in order.
-pub struct PhysLayer { pub ghost pending: Seq<u8>, pub ghost sent: Seq<Seq<u8>> }
+pub struct PhysLayer { pub ghost pending: Seq<u8>, pub ghost sent: Seq<Seq<u8>>, pub ghost tls_by: Option<int> }   // tls_by: the TLS client configuration the layer was established under (None: not a client-side TLS layer)
 impl PhysLayer {
     #[verifier::external_body]
     pub async fn read(&mut self, buffer: &mut [u8], decode_level: PhysDecodeLevel) -> (r: Result<usize, std::io::Error>)
